@@ -33,6 +33,9 @@ pub enum VoterStrategy {
     Split,
     /// behaves like a correct voter would (notar first block, final), but late
     Late,
+    /// skip to every correct node but one, notar (and final) to that one: pushes the notarizers
+    /// towards safe-to-skip while one node can still assemble a fast-finalization
+    SkipToMostNotarToOne,
 }
 
 #[derive(Clone, Copy, Debug, PartialEq, Eq)]
@@ -73,8 +76,8 @@ pub fn draw_byz_cfg(_p: &Profile, byz_nodes: &[usize], n: usize) -> ByzCfg {
             cert_injector: false,
         };
     }
-    let voter = [VoterStrategy::Silent, VoterStrategy::Promiscuous, VoterStrategy::Split, VoterStrategy::Promiscuous, VoterStrategy::Late]
-        [kernel::choose(CFG, 5) as usize];
+    let voter = [VoterStrategy::Silent, VoterStrategy::Promiscuous, VoterStrategy::Split, VoterStrategy::Promiscuous, VoterStrategy::Late, VoterStrategy::SkipToMostNotarToOne]
+        [kernel::choose(CFG, 6) as usize];
     let leader = if _p.hostile && kernel::choose(CFG, 2) == 1 {
         LeaderStrategy::Malformed
     } else {
@@ -214,6 +217,18 @@ impl Adv {
                                 let fin = vote_bytes(Vote::new_final(slot, &kp.vsk, me));
                                 self.late_queue.push((at, b, notar, all.clone()));
                                 self.late_queue.push((at + 50, b, fin, all));
+                            }
+                        }
+                        VoterStrategy::SkipToMostNotarToOne => {
+                            if bi == 0 && !all.is_empty() {
+                                let one = all[kernel::choose(ADV, all.len() as u64) as usize];
+                                let rest: Vec<usize> = all.iter().copied().filter(|x| *x != one).collect();
+                                let notar = vote_bytes(Vote::new_notar(slot, hash.clone(), &kp.vsk, me));
+                                let skip = vote_bytes(Vote::new_skip(slot, &kp.vsk, me));
+                                let fin = vote_bytes(Vote::new_final(slot, &kp.vsk, me));
+                                self.send_a2a(b, &skip, &rest);
+                                self.send_a2a(b, &notar, &[one]);
+                                self.send_a2a(b, &fin, &[one]);
                             }
                         }
                         VoterStrategy::Silent => {}
